@@ -174,12 +174,13 @@ PROPS = {
     "C11": dict(
         title="Memory contract: declared extents and *_tmp_bytes scratch are never exceeded",
         module="SpqProofs.Properties.C11",
+        extra_modules=["SpqProofs.Properties.ModHeap"],
         gen=["tmpbytes"],
         variants={"plain": None, "asan": None},
-        streams=dict(quick=[("mem_pairs", "asan"), ("vz_box", "asan"), ("vz_norm", "asan"), ("kz_probe", "asan"), ("kz_norm", "asan"), ("ca_prog", "asan"), ("md_prod", "asan"), ("md_vmp", "asan"), ("md_ntt", "asan"), ("cv_misc", "asan"), ("cv_rnx", "asan"), ("cv_cplxvec", "asan"), ("ca_small", "asan"), ("big_align", "asan"), ("cv_misc", "plain")],
-                     thorough=[("mem_pairs", "asan"), ("vz_box", "asan"), ("vz_norm", "asan"), ("kz_probe", "asan"), ("kz_norm", "asan"), ("ca_prog", "asan"), ("md_prod", "asan"), ("md_vmp", "asan"), ("md_ntt", "asan"), ("cv_misc", "asan"), ("cv_rnx", "asan"), ("cv_cplxvec", "asan"), ("ca_small", "asan"), ("big_align", "asan"), ("cv_misc", "plain")]),
-        proved="index logic of every limb-vector operation: declared extents inside the heap imply no out-of-bounds access of the model (all shapes incl. zero limb counts), frame theorems (C18) bound the writes, scratch of the normalisation = one carry limb = *_tmp_bytes; Gen obligation: size formulas = live *_tmp_bytes / bytes_of_* values",
-        not_proved="runtime residue observed by ASan/UBSan-bounds/LSan on exactly-sized heap buffers, not proved: accesses inside float kernels and asm leaves, alloc/free pairing of new_*/delete_*, alignment, allocator overflow abort; DFT/SVP/VMP entry points are covered by the sanitizer streams only until the module-level model lands",
+        streams=dict(quick=[("mem_pairs", "asan"), ("vz_box", "asan"), ("vz_norm", "asan"), ("kz_probe", "asan"), ("kz_norm", "asan"), ("ca_prog", "asan"), ("md_prod", "asan"), ("md_vmp", "asan"), ("md_ntt", "asan"), ("cv_misc", "asan"), ("cv_rnx", "asan"), ("cv_cplxvec", "asan"), ("ca_small", "asan"), ("big_align", "asan"), ("cv_misc", "plain"), ("mh_arena", "plain"), ("mh_arena", "asan")],
+                     thorough=[("mem_pairs", "asan"), ("vz_box", "asan"), ("vz_norm", "asan"), ("kz_probe", "asan"), ("kz_norm", "asan"), ("ca_prog", "asan"), ("md_prod", "asan"), ("md_vmp", "asan"), ("md_ntt", "asan"), ("cv_misc", "asan"), ("cv_rnx", "asan"), ("cv_cplxvec", "asan"), ("ca_small", "asan"), ("big_align", "asan"), ("cv_misc", "plain"), ("mh_arena", "plain"), ("mh_arena", "asan")]),
+        proved="index logic of every limb-vector operation: declared extents inside the heap imply no out-of-bounds access of the model (all shapes incl. zero limb counts), frame theorems (C18) bound the writes, scratch of the normalisation = one carry limb = *_tmp_bytes; Gen obligation: size formulas = live *_tmp_bytes / bytes_of_* values MODULE LAYER (Properties/ModHeap.lean, heap-level model Spq.ModuleHeap tied bit-exactly by stream mh_arena): for vec_znx_dft, vec_znx_idft (in place or not), idft_tmp_a, svp_prepare, svp_apply_dft, znx_small_single_product, vmp_prepare_contiguous, vmp_apply_dft_to_dft and vmp_apply_dft, for all nn, limb counts incl. 0, strides and matrix shapes: when the caller provides the regions of the C contract and exactly *_tmp_bytes(shape) bytes of scratch (formulas of Spq.TmpBytes = live values, Gen obligation), no access leaves the declared regions (ok flag kept), incl. the tmp_space split of vmp_apply_dft and the accumulator/extraction buffers of apply_dft_to_dft.",
+        not_proved="runtime residue observed by ASan/UBSan-bounds/LSan on exactly-sized heap buffers, not proved: accesses inside float kernels and asm leaves, alloc/free pairing of new_*/delete_*, alignment, allocator overflow abort; inside the float kernels (conversion, fft, products) accesses are over-approximated to the whole limb/block they are given",
         level_text="Lean 4 theorems for the index logic (bounds flag, frame, scratch size) + kernel-decided size-formula obligation on live values; the memory-safety residue is tied by sanitizer builds on exact-size buffers (partial)",
         design_ref="DESIGN.md §5 C11",
         technique="Lean 4 proof of the index logic + regenerated size facts; sanitizer-instrumented correspondence",
@@ -224,21 +225,22 @@ PROPS = {
     "C13": dict(
         title="Supported in-place calls give the same result as out-of-place calls",
         module="SpqProofs.Properties.C13",
-        streams=dict(quick=[("vz_box", "plain"), ("kz_probe", "plain"), ("vz_norm", "plain"), ("md_prod", "plain"), ("alias_mul", "plain"), ("md_prog", "plain"), ("md_ntt", "plain"), ("mn_model", "plain")],
-                     thorough=[("vz_box", "plain"), ("kz_probe", "plain"), ("vz_norm", "plain"), ("md_prod", "plain"), ("alias_mul", "plain"), ("md_prog", "plain"), ("md_ntt", "plain"), ("mn_model", "plain")]),
-        proved="call-independence theorems: an aliased call (res==a or res==b, same stride) and a call with separate buffers on the same source data give identical output cells, for add/sub/copy/negate/rotate/automorphism and the big variants, all limb counts (res_size != aliased size included)",
-        not_proved="the inverse DFT in place and pointwise products with r==a are float kernels: covered by the module-level streams (bit-exact), theorem staged with the FFT model",
+        extra_modules=["SpqProofs.Properties.ModHeap"],
+        streams=dict(quick=[("vz_box", "plain"), ("kz_probe", "plain"), ("vz_norm", "plain"), ("md_prod", "plain"), ("alias_mul", "plain"), ("md_prog", "plain"), ("md_ntt", "plain"), ("mn_model", "plain"), ("mh_arena", "plain")],
+                     thorough=[("vz_box", "plain"), ("kz_probe", "plain"), ("vz_norm", "plain"), ("md_prod", "plain"), ("alias_mul", "plain"), ("md_prog", "plain"), ("md_ntt", "plain"), ("mn_model", "plain"), ("mh_arena", "plain")]),
+        proved="call-independence theorems: an aliased call (res==a or res==b, same stride) and a call with separate buffers on the same source data give identical output cells, for add/sub/copy/negate/rotate/automorphism and the big variants, all limb counts (res_size != aliased size included) MODULE LAYER (Properties/ModHeap.lean): vec_znx_idft in place (res == a_dft) = out of place for every (res_size, a_size), any module configuration (vec_znx_idft_inplace_eq_outofplace); znx_small_single_product tolerates res overlapping a and b.",
+        not_proved="pointwise products with r==a / r==b at kernel level are covered by the alias_mul stream (bit-exact), not by a theorem (the functional kernel models have no aliasing)",
         level_text="Lean 4 theorems: aliased call = separate-buffer call on identical data for every shape; in-place kernels tied to the real code by the exhaustive probe stream",
         design_ref="DESIGN.md §5 C13",
     ),
     "C16": dict(
         title="Pipelines of API calls compute the corresponding expression in Z[X]/(X^N+1)",
         module="SpqProofs.Properties.C16",
-        extra_modules=["SpqProofs.Properties.Closed"],
+        extra_modules=["SpqProofs.Properties.Closed", "SpqProofs.Properties.C16Err"],
         streams=dict(quick=[("md_prog", "plain"), ("vz_box", "plain")],
                      thorough=[("md_prog", "plain"), ("vz_box", "plain")]),
-        proved="coefficient-space fragment, complete: for every layout (N = 2^t, strides >= N, pairwise disjoint variables inside one int64 heap), every straight-line program of add/sub/negate/copy/rotate/automorphism/normalize calls (any length, destination equal to a source or not, any limb counts incl. 0) and every input, if the exact interpreter stays in budget (every stored coefficient fits int64; |normalize input| <= 2^62, k in [1,62]; odd automorphism index) then the heap after running the model of vec_znx.c holds, limb by limb, the exact expression in Z[X]/(X^N+1) (pointwise +-, X^p*a, a(X^p) = sum a_i X^(ip), balanced base-2^k digits), all other cells (padding, other variables) are unchanged and no access was out of bounds (coeff_prog_refines, coeff_prog_output; per-call *_sim derived from the C08/C09/C05 specs). Mixed programs (dft, svp_prepare/apply, vmp_prepare/apply, idft, small product on a second store of opaque objects): prog_refines_partial proves the refinement for every module and every program relative to the record DftOpsSound of per-function exactness facts (dft_exact, svp_exact, vmp_exact, dft_idft_exact, small_product_exact = the C01/C02 theorems) - heap reads with strides, stores, frames, interplay with coefficient-space calls and validity of opaque objects as inputs of later calls are proved; DftOpsSound is shown inhabited (identity-transform module)",
-        not_proved="[update: dftOpsSound_network / prog_refines_closed in Properties/Closed.lean instantiate DftOpsSound for the real FFT network in exact arithmetic, so mixed programs refine exact integer semantics with no remaining hypothesis other than the binary64 rounding budget] DftOpsSound was not instantiated in Properties/C16.lean itself (exact-arithmetic instance = C01/C02 exact parts; binary64 instance additionally needs the C06.4/C01 error budget): the DFT-space part of the statement is therefore relative to those hypotheses (theorem named prog_refines_partial). NTT120 big-coefficient programs (int128 limbs) are covered by the md_prog stream only. The closed coefficient formulas are the textbook ones for Z[X]/(X^N+1); no bridge to Mathlib's AdjoinRoot",
+        proved="coefficient-space fragment, complete: for every layout (N = 2^t, strides >= N, pairwise disjoint variables inside one int64 heap), every straight-line program of add/sub/negate/copy/rotate/automorphism/normalize calls (any length, destination equal to a source or not, any limb counts incl. 0) and every input, if the exact interpreter stays in budget (every stored coefficient fits int64; |normalize input| <= 2^62, k in [1,62]; odd automorphism index) then the heap after running the model of vec_znx.c holds, limb by limb, the exact expression in Z[X]/(X^N+1) (pointwise +-, X^p*a, a(X^p) = sum a_i X^(ip), balanced base-2^k digits), all other cells (padding, other variables) are unchanged and no access was out of bounds (coeff_prog_refines, coeff_prog_output; per-call *_sim derived from the C08/C09/C05 specs). Mixed programs (dft, svp_prepare/apply, vmp_prepare/apply, idft, small product on a second store of opaque objects): prog_refines_partial proves the refinement for every module and every program relative to the record DftOpsSound of per-function exactness facts (dft_exact, svp_exact, vmp_exact, dft_idft_exact, small_product_exact = the C01/C02 theorems) - heap reads with strides, stores, frames, interplay with coefficient-space calls and validity of opaque objects as inputs of later calls are proved; DftOpsSound is shown inhabited (identity-transform module) BINARY64 (Properties/C16Err.lean): the program interpreter run with the binary64 module instance Cfg.parts produces exactly the integer limbs of the exact interpreter for every well-typed program (all ten ops incl. vmp_apply_dft_to_dft) whose DFT-space steps satisfy their per-operation budget (round trip dft->idft: 17 log2(N) u |a|_2 < 1/2; svp / small product: C01Err budget; vmp: C02Err budget) and whose vmp_apply_dft_to_dft reads a raw dft output (SingleProductDepth, decidable): prog_refines_f64_partial, prog_output_f64_partial, dftOpsSound_f64 (DftOpsSound instantiated for the library module), f64_agrees_with_exact_network_partial. The stream md_prog now also sends every program to the Lean program model (driver family pg) and compares the final heap and every DFT variable bit for bit.",
+        not_proved="DftOpsSound is instantiated for the real FFT network in exact arithmetic (Closed: dftOpsSound_network, prog_refines_closed, incl. products of products) and for the library binary64 module (C16Err: dftOpsSound_f64). What remains for binary64: the per-operation budgets carry the proved constants (12 / 17 instead of the property 8 / 16), twiddle accuracy and the underflow side condition are hypotheses, and vmp_apply_dft_to_dft applied to the OUTPUT of svp/vmp (product of products) is outside SingleProductDepth (needs error propagation through a second product). NTT120 big-coefficient programs (int128 limbs) are not in the program model (module-level theorems in C03Mod; md_prog stream). The bridge of the closed coefficient formulas to Mathlib AdjoinRoot is in Properties/Bridge.lean",
         level_text="Lean 4 refinement theorem (simulation by induction on the program) for the whole coefficient-space fragment over the heap model of vec_znx.c; DFT-space extension proved relative to an explicit record of per-function exactness hypotheses; random well-typed programs over the real library (both dispatch masks, aliasing, shapes) checked against an independent 128-bit exact interpreter",
         design_ref="DESIGN.md §5 C16",
         technique="Lean 4 proof (generic simulation theorem + per-call lemmas from C08/C09/C05 specifications) + differential program-level correspondence",
@@ -269,10 +271,11 @@ PROPS = {
     "C18": dict(
         title="Read-only operands are never modified",
         module="SpqProofs.Properties.C18",
-        streams=dict(quick=[("vz_box", "plain"), ("vz_norm", "plain"), ("md_prod", "plain"), ("md_vmp", "plain"), ("md_ntt", "plain"), ("mn_model", "plain")],
-                     thorough=[("vz_box", "plain"), ("vz_norm", "plain"), ("md_prod", "plain"), ("md_vmp", "plain"), ("md_ntt", "plain"), ("mn_model", "plain")]),
-        proved="unconditional frame theorems: only the nn cells of the first rsz output limbs can change (any offsets, strides, overlap); hence every source cell not aliased with the output, including stride padding, is unchanged",
-        not_proved="module tables / prepared objects of the DFT, SVP and VMP paths are covered by the module-level streams (byte snapshots), not yet by theorems",
+        extra_modules=["SpqProofs.Properties.ModHeap"],
+        streams=dict(quick=[("vz_box", "plain"), ("vz_norm", "plain"), ("md_prod", "plain"), ("md_vmp", "plain"), ("md_ntt", "plain"), ("mn_model", "plain"), ("mh_arena", "plain")],
+                     thorough=[("vz_box", "plain"), ("vz_norm", "plain"), ("md_prod", "plain"), ("md_vmp", "plain"), ("md_ntt", "plain"), ("mn_model", "plain"), ("mh_arena", "plain")]),
+        proved="unconditional frame theorems: only the nn cells of the first rsz output limbs can change (any offsets, strides, overlap); hence every source cell not aliased with the output, including stride padding, is unchanged MODULE LAYER (Properties/ModHeap.lean): for the nine FFT64 entry points every arena cell outside the result region and the declared scratch is unchanged (sources, prepared scalars/matrices, stride padding); idft_tmp_a: frame = result + the used limbs of its DFT source (the documented exception).",
+        not_proved="module tables are parameters of the functional kernels in the model (immutable by construction): that the C kernels do not write them is covered by the byte-snapshot streams (ModSnap), not by a theorem",
         level_text="Lean 4 frame theorems for every vec_znx operation with no hypotheses on offsets/strides; whole-arena byte comparison against the real code",
         design_ref="DESIGN.md §5 C18",
     ),
